@@ -210,8 +210,10 @@ impl<D: DataMut> LWEToMut for LWE<D> {
 impl<D: DataMut> ReaderFrom for LWE<D> {
     /// Deserialises an [`LWE`] in little-endian binary format.
     fn read_from<R: std::io::Read>(&mut self, reader: &mut R) -> std::io::Result<()> {
-        self.base2k = Base2K(reader.read_u32::<LittleEndian>()?);
-        self.data.read_from(reader)
+        let base2k = Base2K(reader.read_u32::<LittleEndian>()?);
+        self.data.read_from(reader)?;
+        self.base2k = base2k;
+        Ok(())
     }
 }
 
